@@ -1138,12 +1138,25 @@ def m_from_be(I, st, call):
     return [(st, r)]
 
 
-@model("core::num::<impl u16>::to_be_bytes", "core::num::<impl u32>::to_be_bytes",
+@model("core::num::<impl u16>::to_be_bytes", "core::num::<impl u32>::to_be_bytes", "core::num::<impl u64>::to_be_bytes",
+       "core::num::<impl usize>::to_be_bytes",
        "core::num::<impl u16>::to_le_bytes", "core::num::<impl u16>::to_ne_bytes")
 def m_to_bytes(I, st, call):
     a = call.args[0]
     n = call.dest_ty[2] if call.dest_ty and call.dest_ty[0] == "array" else None
-    return [(st, OpaqueV(call.dest_ty, (("array_len", n), ("bytes_of", (call.name, a)))))]
+    attrs = [("array_len", n), ("bytes_of", (call.name, a))]
+    if call.name == "to_be_bytes" and isinstance(a, IntV) and a.ty is not None and not a.ty[1] and isinstance(n, int) and n * 8 == a.ty[0]:
+        # the bytes as values of their own: byte k carries bits 8(n-1-k)..+7 of the number, and the number is
+        # their base-256 sum (so a test on a byte bounds the number and the other way round)
+        bits = I.bits_of(st, a, a.ty[0])
+        elems, total = [], Aff.const(0)
+        for k in range(n):
+            e = I.from_bits(st, tuple(bits[8 * (n - 1 - k): 8 * (n - k)]), (8, False), "be")
+            elems.append(e)
+            total = total + e.aff.scale(256 ** (n - 1 - k))
+        st.add_eq(a.aff, total)
+        attrs.append(("elems", StructV(elems)))
+    return [(st, OpaqueV(call.dest_ty, tuple(attrs)))]
 
 
 @model("core::num::<impl u16>::from_be_bytes", "core::num::<impl u32>::from_be_bytes",
